@@ -203,6 +203,7 @@ def main(tier):
     return run_property(
         PROP, "checks.c04", tier, "translation_validation",
         assumptions=[
+            "class-generic monotonicity for the 9 resource rules as in C03; nested and overlapping interval lists are admitted input for unavailability and workload (only identical entries are excluded: rejected at creation); net duration of interruptible tasks under a periodic interruption inside dates 0..14, no activity window",
             "listed intervals are well-formed (lo < hi, lo >= 0); in-period intervals lie inside [0, period]",
             "period is concrete (3, 5, 6) so that modulo stays linear; offset, start, end, bounds, distances symbolic and unbounded",
             "periodic rules are stated for a symbolic period index k over all integers (free variable of the validity query)",
